@@ -1,5 +1,6 @@
 //! Adapter for the `TriG` parser from [RIO](https://github.com/Tpt/rio/blob/master/turtle/src/turtle.rs)
 
+use super::IriCheckedSource;
 use rio_turtle::TriGParser as RioTriGParser;
 use sophia_api::parser::QuadParser;
 use sophia_iri::Iri;
@@ -14,7 +15,7 @@ pub struct TriGParser {
 }
 
 impl<B: BufRead> QuadParser<B> for TriGParser {
-    type Source = StrictRioQuadSource<RioTriGParser<B>>;
+    type Source = IriCheckedSource<StrictRioQuadSource<RioTriGParser<B>>>;
     fn parse(&self, data: B) -> Self::Source {
         let base = self
             .base
@@ -22,7 +23,7 @@ impl<B: BufRead> QuadParser<B> for TriGParser {
             .map(Iri::unwrap)
             .map(oxiri::Iri::parse)
             .map(Result::unwrap);
-        StrictRioQuadSource(RioTriGParser::new(data, base))
+        IriCheckedSource(StrictRioQuadSource(RioTriGParser::new(data, base)))
     }
 }
 
